@@ -33,6 +33,8 @@ class Cfg:
     """generation switches; `off` = set of feature names excluded by construction"""
 
     def __init__(self, profile: str, off, focus: Optional[List[str]] = None, mode: Optional[str] = None):
+        self.group_heavy = profile.endswith("+group")
+        profile = profile.split("+")[0]
         self.profile = profile  # 'direct' | 'modelled'
         self.off = set(off or [])
         self.focus = focus  # governed fields to concentrate on
@@ -74,12 +76,14 @@ def read_spec(draw, cfg: Cfg, field: str, version: int, allow_group=True):
         kinds += ["gtxn"] * 2
         if version >= 3:
             kinds += ["gtxns", "rel"]
+        if cfg.group_heavy:
+            kinds = ["txn"] * 2 + ["gtxn"] * 3 + (["gtxns"] * 2 + ["rel"] * 4 if version >= 3 else [])
     kind = draw(st.sampled_from(kinds))
     spec: Dict[str, Any] = {"kind": kind, "field": field}
     if kind in ("gtxn", "gtxns"):
         spec["idx"] = draw(st.sampled_from([0, 0, 1, 1, 2, 3, 15]))
     elif kind == "rel":
-        spec["off"] = draw(st.sampled_from([1, 1, 2, 3, 15]))
+        spec["off"] = draw(st.sampled_from([1, 1, 2, 3, 15, 0] if cfg.group_heavy else [1, 1, 2, 3, 15]))
         spec["sign"] = draw(st.sampled_from(["+", "+", "-"]))
         spec["order"] = draw(st.integers(0, 1)) if spec["sign"] == "+" else 0
     return ["read", spec]
